@@ -30,10 +30,21 @@ var (
 	flagNoEv   = flag.Bool("noevidence", false, "do not write evidence files")
 	flagMutant = flag.String("mutant", "", "run the rules on one registered mutant (id) instead of the tree")
 	flagStrict = flag.Bool("strict", false, "fail (exit 2) when a registered mutant survives or is stale")
+	flagDesc   = flag.Bool("describe", false, "print the registered properties (id, decides, not decided, mutants) as JSON and exit")
 )
 
 func main() {
 	flag.Parse()
+	if *flagDesc {
+		out := map[string]any{}
+		for _, id := range rules.IDs() {
+			p := rules.Get(id)
+			out[id] = map[string]any{"decides": p.Decides, "not_decided": p.NotDecided, "mutants": len(p.Mutants), "assumptions": p.Assumptions}
+		}
+		b, _ := json.MarshalIndent(out, "", " ")
+		fmt.Println(string(b))
+		return
+	}
 	start := time.Now()
 	seed := 0
 	if s := os.Getenv("VERIF_SEED"); s != "" {
